@@ -820,6 +820,19 @@ func (r *Reconciler) evictPod(ctx context.Context, job *sev1alpha1.PodMigrationJ
 		return false, reconcile.Result{}, err
 	}
 
+	// The Pod may have been scheduled since the node of the Reservation was checked (e.g. it was not scheduled yet then);
+	// never evict it from the node the Reservation was assigned to.
+	if job.Status.NodeName != "" && pod.Spec.NodeName == job.Status.NodeName {
+		job.Status.Phase = sev1alpha1.PodMigrationJobFailed
+		job.Status.Reason = sev1alpha1.PodMigrationJobReasonForbiddenMigratePod
+		job.Status.Message = fmt.Sprintf("Pod %q is on node %q which the Reservation was assigned to", podNamespacedName, pod.Spec.NodeName)
+		err = r.Client.Status().Update(ctx, job)
+		if err == nil {
+			r.eventRecorder.Eventf(job, nil, corev1.EventTypeWarning, sev1alpha1.PodMigrationJobReasonForbiddenMigratePod, "Migrating", job.Status.Message)
+		}
+		return false, reconcile.Result{}, err
+	}
+
 	if job.Spec.DeleteOptions == nil {
 		job.Spec.DeleteOptions = r.args.DefaultDeleteOptions
 	}
